@@ -89,6 +89,16 @@ def namespaces(ctx, binary, prefixes=("C02/",), mc=True):
                 if not any(o["sig"].startswith(p) for p in prefixes) and any(x["sig"].startswith(p) for p in prefixes):
                     o["sig"], o["detail"] = x["sig"], x["detail"]
             if any(o["sig"].startswith(p) for p in prefixes):
+                # informers, their stop goroutines and the fake cluster's watches are asynchronous: a failure counts only if
+                # the same history fails again (same property) when it is executed once more on its own
+                ci, co = ctx.path("snapns_confirm_in.jsonl"), ctx.path("snapns_confirm_out.jsonl")
+                vlib.write_jsonl(ci, [c])
+                rc = vlib.run_bin(ctx, binary, ["-mode", "ns", "-in", ci, "-out", co], timeout=300)
+                again = vlib.read_jsonl(co) if rc["rc"] == 0 else []
+                sigs2 = [again[0].get("sig", "")] + [x["sig"] for x in (again[0].get("also") or [])] if again and not again[0]["ok"] else []
+                if not any(s2.startswith(p) for s2 in sigs2 for p in prefixes):
+                    ctx.notes.append("NOT-REPRODUCED %s: %s" % (o["sig"], o["detail"][:300]))
+                    continue
                 ctx.fail(o["sig"], o["detail"], vlib.replay_payload("snap", ["-mode", "ns", "-in", "{in}", "-out", "{out}"], c,
                          human={"actions": [s["act"] for s in c["steps"][1:o.get("bad_step", 0) + 1]], "initial": c["steps"][0]["cluster"], "labelled": c["steps"][0]["nsMatch"]}))
             else:
